@@ -209,6 +209,7 @@ func multisigMonitor(wallets []*msWallet) chainsim.Monitor {
 			}
 		}
 		expectExec := false
+		hBefore := h
 		if why == "" && s.Err == nil {
 			h = h.clone()
 			if inst == nil {
@@ -235,6 +236,9 @@ func multisigMonitor(wallets []*msWallet) chainsim.Monitor {
 		}
 		class := why + ":" + outcomeOf(s)
 		s.Tag("vote:" + class)
+		if s.Err == nil && s.Txn.Status != transaction.TxnSuccess {
+			h = hBefore // a failed call is reverted: the vote is not recorded
+		}
 		if s.Err != nil {
 			if len(s.Diff) > 0 {
 				v("C21:rejected-vote-changed-state", fmt.Sprintf("%d leaves changed by a rejected transaction", len(s.Diff)))
@@ -253,6 +257,9 @@ func multisigMonitor(wallets []*msWallet) chainsim.Monitor {
 			v("C21:vote:more-than-one-transfer-executed:"+why, fmt.Sprintf("%d signed transfers queued by one vote", len(sts)))
 		case len(sts) == 1 && !expectExec:
 			v("C21:vote:transfer-executed-without-enough-distinct-valid-votes:"+why, fmt.Sprintf("a transfer of %d from the wallet was executed by a vote classified %q (wallet %s)", uint64(sts[0].Amount), why, wname))
+		case len(sts) == 0 && expectExec && !mw.Shares:
+			// signer keys that are not shares of the wallet key can never produce a valid wallet signature
+			s.Tag("threshold-reached-but-not-executed:signers-not-shares-of-wallet-key")
 		case len(sts) == 0 && expectExec:
 			v("C21:vote:transfer-not-executed-at-threshold", fmt.Sprintf("the %d-th distinct valid vote did not execute the transfer (status %d, output %.100s)", mw.T, s.Txn.Status, s.Txn.TransactionOutput))
 		}
@@ -330,6 +337,17 @@ func multisigScenario(run *ev.Run) (*scenario, []*msWallet) {
 		// wallet C (2 of 2, signer keys unrelated to the wallet key)
 		voteAction(w, wC, "P1", "c0", 9, s(wC, 1), s(wC, 1), ""),
 		voteAction(w, wC, "P1", "c0", 9, s(wC, 2), s(wC, 2), ""),
+	}
+	if !run.Thorough() {
+		// quick tier: leave out three variants that the thorough tier keeps
+		var keep []chainsim.Action
+		for _, a := range sc.acts {
+			if strings.Contains(a.Name, "[incompatible-recipient]") || strings.Contains(a.Name, "[wallet-owner-itself]") || strings.HasPrefix(a.Name, "multisigsc.register") {
+				continue
+			}
+			keep = append(keep, a)
+		}
+		sc.acts = keep
 	}
 	sc.dq, sc.dt = 4, 5
 	sc.rule = "BFS from three registered wallets (2-of-3 and 3-of-3 with signer keys that are Shamir shares of the wallet key; 2-of-2 with unrelated signer keys) over votes {valid by each signer, repeated, incompatible amount / recipient, by a non-signer, by the wallet owner, by a signer of another wallet, carrying another signer's signature, garbage signature, above the wallet balance, one second before and exactly at expiry (7 days)} and re-registration; reference model of distinct valid compatible unexpired votes kept along the path (the monitor verifies every vote signature itself); oracle per transition: a signed transfer is queued iff this is the t-th distinct valid vote of an unexecuted unexpired proposal, exactly one, equal to the proposal, debiting the wallet by exactly the amount, and its signature verifies under the wallet's public key"
